@@ -409,7 +409,7 @@ func runMsgs(seed int64, histories, steps int, out *Emitter) {
 				}
 			}()
 			post, bad := c.storageAbs(users)
-			gid, gacc := gaugeDelta(pre, post, c.T.UnixNano(), new(big.Int).Add(big.NewInt(c.T.UnixNano()), new(big.Int).Mul(big.NewInt((pf.Expires-c.H)*6/60/60/24), big.NewInt(86400_000_000_000))))
+			gid, gacc := gaugeDelta(pre, post, big.NewInt(c.T.UnixNano()), new(big.Int).Add(big.NewInt(c.T.UnixNano()), new(big.Int).Mul(big.NewInt((pf.Expires-c.H)*6/60/60/24), big.NewInt(86400_000_000_000))))
 			inner := map[string]interface{}{"creator": creator, "merkle": hex.EncodeToString(merkle), "fileSize": pf.FileSize, "maxProofs": pf.MaxProofs, "expires": pf.Expires, "proofType": 0,
 				"note": "{}", "noteValid": true, "jklPrice": BigNum{c.A.StorageKeeper.GetJklPrice(c.Ctx()).BigInt()}, "gaugeId": gid, "gaugeAcc": gacc}
 			out.Emit(map[string]interface{}{"mod": "wasm", "hist": hi, "i": i, "h": c.H, "now": c.T.UnixNano(), "pre": pre, "contract": contract.String(),
